@@ -439,6 +439,11 @@ def _decode(it, a, k, n):
         if not it.spec and not it.branch(ok, "decode-ascii"):
             it.raise_("UnicodeDecodeError", node=n)
         return VStr(s.z, "str")
+    if cc in ("utf-8", "utf8"):
+        # ASCII bytes are their own UTF-8 decoding (ground fact)
+        asc = z3.InRe(s.z, z3.Star(_range("\x00", "\x7f")))
+        it.ctx.assume(z3.Implies(asc, z3.And(DEC_OK(s.z, z3.StringVal(cc)),
+                                             DEC(s.z, z3.StringVal(cc), z3.StringVal(ce)) == s.z)), "utf8-decode:ascii-identity")
     if cc in ("utf-8", "utf8") and z3.is_app(s.z) and s.z.decl().name() == "py_encode" and s.z.num_args() == 2:
         # decoding what encode() of the same codec produced gives the text back (trusted fact about the codec),
         # whatever the error handler
